@@ -2,6 +2,7 @@
 from __future__ import annotations
 
 import copy
+import os
 import shutil
 import sys
 import tempfile
@@ -141,6 +142,72 @@ class C05(vlib.Check):
                 yield {"t": "bigadd", "n": n + self.rng.randrange(40), "kind": self.rng.choice(["bit", "count"]), "split": self.rng.choice([None, None, 3, 40000]),
                        "seed": self.rng.randrange(10 ** 6)}
         yield from self.gen_zero_cases()
+        if self.id == "C05":
+            # property columns held in a narrow NumPy dtype (given as a typed array, as NumPy scalars on the fingerprints, or reloaded
+            # from a file) that later receive values the narrow dtype cannot hold: what was put in comes back
+            import random
+            r2 = random.Random(self.seed * 104729 + 5)       # (own stream)
+            for k in range(8 if self.tier == "quick" else 100):
+                self.count("narrow-dtype-column")
+                yield {"t": "narrowcol", "dtype": ["int16", "int32", "float32", "int8", "uint8", "float16", "int32", "int16"][k % 8],
+                       "how": ["set_prop", "scalars", "reload", "from_array"][k % 4], "then": r2.choice(["add", "concat", "concat-reversed"]),
+                       "kind": r2.choice(["bit", "count"]), "seed": r2.randrange(10 ** 6)}
+
+    def _narrowcol_prop(self, case):
+        import numpy as np
+        from harness.fpgen import CLS
+        r = np.random.RandomState(case["seed"])
+        cls, dt = CLS[case["kind"]], np.dtype(case["dtype"])
+        small = [1, 2, 3] if dt.kind in "iu" else [0.5, 1.5, 2.0]
+        big = {"int8": [300, -200], "uint8": [256, 70000], "int16": [70000, -40000], "int32": [3000000000, 2 ** 40 + 3], "float32": [0.1, 1e-50],
+               "float16": [0.1, 70000.0]}[case["dtype"]]
+
+        def mk(i, v, scalar=False):
+            f = cls.from_indices(r.randint(0, 64, size=3), bits=64, level=5)
+            f.name = "m%d" % i
+            f.set_prop("col", dt.type(v) if scalar else v)
+            return f
+        try:
+            db = dbgen.FingerprintDatabase(fp_type=cls, level=5)
+            how = case["how"]
+            if how == "scalars":
+                db.add_fingerprints([mk(i, v, True) for i, v in enumerate(small)])
+            else:
+                fps = [mk(i, v) for i, v in enumerate(small)]
+                if how == "from_array":
+                    tmp = dbgen.FingerprintDatabase(fp_type=cls, level=5)
+                    tmp.add_fingerprints(fps)
+                    db = dbgen.FingerprintDatabase.from_array(tmp.array, [f.name for f in fps], fp_type=cls, level=5, props={"col": np.array(small, dtype=dt)})
+                else:
+                    db.add_fingerprints(fps)
+                    db.set_prop("col", np.array(small, dtype=dt))
+                    if how == "reload":
+                        p = os.path.join(self.tmp(), "narrow%d.fpz" % case["seed"])
+                        db.savez(p)
+                        db = dbgen.FingerprintDatabase.load(p)
+                        os.remove(p)
+            later = [mk(10 + i, v) for i, v in enumerate(big)]
+            want = [float(x) if dt.kind == "f" else int(x) for x in small] + list(big)
+            if case["then"] == "add":
+                db.add_fingerprints(later)
+                out = db
+            else:
+                other = dbgen.FingerprintDatabase(fp_type=cls, level=5)
+                other.add_fingerprints(later)
+                if case["then"] == "concat":
+                    out = dbgen.concat([db, other])
+                else:
+                    out = dbgen.concat([other, db])
+                    want = list(big) + want[:len(small)]
+        except Exception as e:  # noqa: BLE001
+            return {"key": "narrow-column-raises:" + type(e).__name__, "what": "a %s column (%s) followed by %s raised %r" % (case["dtype"], case["how"], case["then"], e)}
+        got = [x.item() if hasattr(x, "item") else x for x in out.get_prop("col")]
+        byrow = [out[i].get_prop("col") for i in range(len(out))]
+        byrow = [x.item() if hasattr(x, "item") else x for x in byrow]
+        if got != want or byrow != want:
+            return {"key": "props-value-changed:narrow-dtype:%s" % case["then"],
+                    "what": "column first held as %s (%s), then %s with values %s: the column reads %s / per row %s, put in were %s" % (case["dtype"], case["how"], case["then"], big, got, byrow, want)}
+        return None
 
     def _bigadd_prop(self, case):
         import numpy as np
@@ -268,7 +335,7 @@ class C05(vlib.Check):
 
     # ------------------------------------------------------------------ correspondence
     def impl(self, case):
-        if case.get("t") in ("zeros", "bigadd"):
+        if case.get("t") in ("zeros", "bigadd", "narrowcol"):
             return {"steps": []}
         run = ImplRun(self.tmp())
         steps = []
@@ -282,7 +349,7 @@ class C05(vlib.Check):
         return {"steps": steps}
 
     def model_ops(self, case):
-        if case.get("t") in ("zeros", "bigadd"):
+        if case.get("t") in ("zeros", "bigadd", "narrowcol"):
             return [{"op": "db.reset"}]
         lines = [{"op": "db.reset"}]
         for k, op in enumerate(case["ops"]):
@@ -292,7 +359,7 @@ class C05(vlib.Check):
         return lines
 
     def model_answer(self, case, answers):
-        if case.get("t") in ("zeros", "bigadd"):
+        if case.get("t") in ("zeros", "bigadd", "narrowcol"):
             return {"steps": []}
         pos = 1
         steps = []
@@ -320,6 +387,8 @@ class C05(vlib.Check):
     def prop(self, case):
         if case.get("t") == "bigadd":
             return self._bigadd_prop(case)
+        if case.get("t") == "narrowcol":
+            return self._narrowcol_prop(case)
         if case.get("t") == "zeros":
             return self._zeros_prop(case)
         run = ImplRun(self.tmp())
@@ -412,7 +481,7 @@ class C05(vlib.Check):
         return None
 
     def nontrivial(self, case, a_impl):
-        if case.get("t") in ("zeros", "bigadd"):
+        if case.get("t") in ("zeros", "bigadd", "narrowcol"):
             return vlib.canon(case)
         ops = [o["op"] for o in case["ops"]]
         if any(o in ("subset", "as_type", "copy", "fold", "concat", "pickle", "savez") for o in ops) and \
@@ -421,7 +490,7 @@ class C05(vlib.Check):
         return None
 
     def neighbours(self, case):
-        if case.get("t") in ("zeros", "bigadd"):
+        if case.get("t") in ("zeros", "bigadd", "narrowcol"):
             return []
         # prefixes of the history
         return [{"t": "hist", "ops": case["ops"][:k]} for k in range(len(case["ops"]) - 1, 0, -1)]
